@@ -64,10 +64,31 @@ fn generate(seed: u64, tier: Tier) -> Scenario {
     if seed % 3 == 0 {
         crate::scenario::sprinkle_legacy_tails(&mut r, &mut sc);
     }
+    // one history in four holds a backup killed while storing a block, which leaves a
+    // zero-length block file behind; those are followed more often by a dry run
+    let mut leftover = false;
+    if seed % 4 == 2 {
+        for s in sc.steps.iter_mut() {
+            if let Step::Backup { plan, .. } = s {
+                if plan.is_faultless() && r.chance(1, 2) {
+                    plan.crash_on = Some(("write".into(), "d/".into()));
+                    plan.crash_on_skip = r.below(3) as u32;
+                    plan.crash_on_empty = true;
+                    leftover = true;
+                    break;
+                }
+            }
+        }
+        if leftover {
+            // a later complete backup, so that the delete is not refused for an open newest band
+            let opts = crate::genr::draw_opts_small_blocks(&mut r);
+            sc.steps.push(Step::Backup { opts, plan: FaultPlan::none() });
+        }
+    }
     // the band set is drawn at execution time from what exists: store the draw seed
     sc.steps.push(Step::Delete {
         bands: vec![],
-        dry_run: r.chance(1, 5),
+        dry_run: if leftover { r.chance(1, 2) } else { r.chance(1, 5) },
         break_lock: r.chance(1, 3),
         plan: FaultPlan::none(),
     });
